@@ -87,6 +87,9 @@ func (t *pgTx) Rollback(ctx context.Context) error {
 	}
 	t.done = true
 	delete(t.s.open, t.id)
+	if err := t.s.tick("rollback"); err != nil {
+		return err // a failed ROLLBACK: the transaction is over on the server all the same
+	}
 	t.s.log = append(t.s.log, fmt.Sprintf("rollback:%d", t.id))
 	return nil
 }
